@@ -1,4 +1,5 @@
 import Restic.Proofs.C01_Lemmas
+import Restic.Proofs.C01_Order
 /-!
 # C01 — restore ∘ backup on the abstract tree
 -/
@@ -54,15 +55,15 @@ theorem idx_of_nodes {ID : Type} (hash : Bytes → ID) (split : Bytes → List B
 theorem restoreNode_eq {ID : Type} [DecidableEq ID] (hash : Bytes → ID) (split : Bytes → List Bytes)
     (hsplit : ∀ c, (split c).flatten = c) (s : List Item) (S : Store ID) (order : Path → List Nat) (a : Item)
     (hns : a.kind ≠ .socket)
-    (hord : a.kind = .file → order a.path = List.range (split a.content).length)
+    (hord : a.kind = .file → ∀ i, i < (split a.content).length → i ∈ order a.path)
     (hload : a.kind = .file → ∀ c ∈ split a.content, S.get (hash c) = some c) :
     restoreNode S (hardlinkIndex (s.map (toNode hash split))) order (toNode hash split a) = some (a.path, R s a) := by
   by_cases hk : a.kind = .file
   · have hc : restoreContent S ((split a.content).map hash) a.content.length (order a.path) = some a.content := by
       unfold restoreContent
-      rw [loadAll_saved hash S _ (hload hk), hord hk]
+      rw [loadAll_saved hash S _ (hload hk)]
       simp only
-      have := restore_inorder (split a.content)
+      have := restore_anyorder (split a.content) (order a.path) (hord hk)
       rw [hsplit] at this
       rw [this]
     have hn : toNode hash split a =
